@@ -118,7 +118,7 @@ def check():
         f_rec = M.one(r"^(eval::)?eval_recursion$")
         f_nid = M.one(r"^eval::<impl[^>]*>::node_identifier$")
         f_push = M.one(r"^eval::<impl[^>]*>::push_scope$")
-        f_new = M.one(r"^eval::<impl at oal-compiler/src/eval\.rs:9[0-9][^>]*>::new$")
+        f_new = M.sel("eval", "new", ret=r"eval::Context")
     except Exception as ex:
         o.inconc("MIR: %s" % str(ex)[-300:])
         return o.finish()
